@@ -727,8 +727,9 @@ def handler_invocations(c: Ctx) -> list[tuple[Unit, ast.Call]]:
     return sorted(out, key=lambda x: (x[0].module, x[1].lineno))
 
 
-@ob('C01.5', 'DOM', 'every invocation of the handler value in execute_handler is dominated by the already-started guard (raise when started_at is set) and by '
-    "event_result_update(status='started'); _would_create_loop returns True for every existing pending/started/finished result")
+@ob('C01.5', 'DOM', 'before it marks the result started, execute_handler raises exactly when the handler\'s result record has already started (started / completed / error) and passes '
+    "when there is none or a pending one (decided by evaluating the prefix over the five states); every invocation of the handler value is dominated by the 'started' mark; "
+    '_would_create_loop returns True for every existing pending/started/finished result')
 def c01_5(c: Ctx) -> None:
     u = c.unit(SVC, 'EventBus.execute_handler')
     g = c.cfg(u)
